@@ -101,6 +101,16 @@ OTHER_FAILS = [
     ("type-error-derived", "SELECT d.v FROM (SELECT -s AS v FROM t) AS d"),
     ("type-error-subq", "SELECT id, (SELECT x + 'q' AS v FROM items) AS sub FROM t WHERE id = 0 OR id = 1 OR id = 2"),
     ("type-error-union", "SELECT a FROM t UNION SELECT m + 'x' AS a FROM u"),
+    # a numeric aggregate / conversion over a value that is no number (boolean, object, array): refused, not read as 0
+    ("type-error-sum-bool", "SELECT SUM(flag) AS v FROM t"),
+    ("type-error-max-object", "SELECT MAX(o) AS v FROM t"),
+    ("type-error-avg-grouped", "SELECT s, AVG(flag) AS v FROM t GROUP BY s"),
+    ("type-error-min-having", "SELECT s FROM t GROUP BY s HAVING MIN(flag) > 0"),
+    ("type-error-changetype-bool", "SELECT CHANGETYPE(flag, 'double') AS v FROM t"),
+    ("type-error-sum-array", "SELECT SUM(items) AS v FROM t"),
+    ("type-error-min-object-one-row", "SELECT MIN(o) AS v FROM t WHERE id = 1"),
+    ("type-error-sum-bool-derived", "SELECT x.v FROM (SELECT SUM(flag) AS v FROM t) x"),
+    ("type-error-bool-arithmetic", "SELECT flag + 1 AS v, -flag AS w FROM t"),
     ("group-by-expr", "SELECT COUNT(*) AS n FROM t GROUP BY a + 1"),
     ("err-fn", "SELECT id, VF_ERR(a = 2) AS v FROM t"),
     ("once-raise", "SELECT id, ONCE.RAISE('boom') FROM t"),
@@ -166,7 +176,7 @@ def explore(chk, rnd, tier):
             nt += 1
     # RAISE family and type errors: an error, no rows
     doc = gen_doc(rnd)
-    doc["t"] = [{"id": i, "a": [1, 2, 3][i % 3], "s": "x", "items": [{"id": 1, "x": 1}]} for i in range(4)]
+    doc["t"] = [{"id": i, "a": [1, 2, 3][i % 3], "s": "x", "items": [{"id": 1, "x": 1}], "flag": i % 2 == 0, "o": {"k": 1}} for i in range(4)]
     # each failing query is run three times in ONE process: it fails every time (a failed run leaves nothing behind -
     # no cache entry, no memo - that lets the next run of the same text succeed)
     outs = run_go([{"op": "query", "doc": enc_val(doc), "sql": sql} for _, sql in OTHER_FAILS for _rep in range(3)])
